@@ -16,6 +16,18 @@
 (* compared.                                                                    *)
 (*                                                                              *)
 (* A matrix is a sequence of rows of rationals <<n, d>>.                        *)
+(*                                                                              *)
+(* The data matrices X, Y (and the vectors x, y and the matrix Sigma of the     *)
+(* Mahalanobis distance) are ABSTRACT: functions from index pairs to numbers.   *)
+(* gonum receives them as mat.Matrix / mat.Vector / (through Cholesky)          *)
+(* mat.Symmetric values, and every Go representation of the same abstract       *)
+(* matrix - compact Dense, a window of a larger matrix with stride > columns    *)
+(* and offsets, the transpose of a matrix holding the transposed data, a user   *)
+(* type exposing only the interface; strided / offset vector views - must give  *)
+(* the result printed here, into every kind of destination (empty, pre-sized,   *)
+(* a window of a larger matrix, whose surroundings stay untouched).  This is    *)
+(* property C04's statement applied to package stat; the replay (harness        *)
+(* reps.go) runs every history in each representation.                          *)
 EXTENDS DescriptiveExt
 
 (********************************* matrices **********************************)
